@@ -10,17 +10,75 @@ LEVEL = "proof"
 EXE = "amodel_c03"
 
 
+def simulate(D, sim, sigs, sigidx, rng, n_events, steps):
+    """drive `n_events` random events (sets of simultaneous changes of clocks, resets, controls and inputs) into `sim`;
+    appends to `steps` (values of all observables before, the changes, values after)"""
+    from amaranth.hdl import Cat
+    from .. import gen_expr
+    clocks = [cd.clk for cd in D.cds]
+    resets = [cd.rst for cd in D.cds if cd.rst is not None]
+    free = clocks + resets + D.inputs + D.ctls
+    bias1 = getattr(D, "bias1", set())
+
+    async def tb(ctx):
+        for _e in range(n_events):
+            # choose a set of simultaneous changes
+            chosen = []
+            r = rng.random()
+            if r < 0.45:
+                chosen = [rng.choice(clocks)]
+            elif r < 0.6:
+                chosen = rng.sample(clocks, rng.randint(1, len(clocks)))
+            elif r < 0.72 and resets:
+                chosen = [rng.choice(resets)]
+            elif r < 0.82 and resets:
+                chosen = [rng.choice(resets), rng.choice(clocks)]
+            elif r < 0.92:
+                chosen = rng.sample(D.inputs + D.ctls, rng.randint(1, 3 if not bias1 else 5))
+            else:
+                chosen = rng.sample(free, rng.randint(1, min(4, len(free))))
+            chosen = list({id(s): s for s in chosen}.values())
+            before = [ctx.get(s) for s in sigs]
+            newvals = []
+            for s in chosen:
+                if any(s is c for c in clocks) or any(s is c for c in resets):
+                    newvals.append(1 - ctx.get(s))
+                elif any(s is c for c in D.ctls):
+                    newvals.append(rng.choice([0, 1, 1, 1, 2, 3]) % (1 << len(s)))
+                elif id(s) in bias1:
+                    newvals.append(rng.choice([1, 1, 1, 0]))
+                else:
+                    newvals.append(gen_expr.rand_value(rng, s.shape()))
+            packed, pos = 0, 0
+            for s, v in zip(chosen, newvals):
+                packed |= (v & ((1 << len(s)) - 1)) << pos
+                pos += len(s)
+            ctx.set(Cat(*chosen), packed)
+            after = [ctx.get(s) for s in sigs]
+            steps.append((before, [(sigidx[id(s)], v) for s, v in zip(chosen, newvals)], after))
+    sim.add_testbench(tb)
+    sim.run()
+
+
+def finish_case(case, D, head, sigs, steps):
+    from .. import gen_design
+    case["head"] = head
+    case["names"] = [gen_design.sig_name(D, s) for s in sigs]
+    case["steps"] = steps
+    case["req"] = head + "".join(
+        f" (step {ser_env(b)} (chg {' '.join(f'({i} {v})' for i, v in chg)}))" for b, chg, _a in steps) + ")"
+
+
 def design_job(args):
     seed, n_designs, n_events = args
-    from amaranth.hdl import Cat
     from amaranth.sim import Simulator
-    from .. import gen_design, gen_expr
+    from .. import gen_design
     rng = random.Random(seed)
     out, hist = [], {}
     for _ in range(n_designs):
         case = {"seed": seed}
         try:
-            D = gen_design.gen_design(rng, hist)
+            D = gen_design.gen_design(rng, hist, rename_maps=True, memories=True)
             head, sigs, sigidx = gen_design.ser_design(D)
         except Exception as e:
             import traceback
@@ -28,68 +86,121 @@ def design_job(args):
             case["gen_error"] = traceback.format_exc()[-600:]
             out.append(case)
             continue
-        clocks = [cd.clk for cd in D.cds]
-        resets = [cd.rst for cd in D.cds if cd.rst is not None]
-        free = clocks + resets + D.inputs + D.ctls
         steps = []
         try:
-            sim = Simulator(D.top)
-
-            async def tb(ctx):
-                for _e in range(n_events):
-                    # choose a set of simultaneous changes
-                    chosen = []
-                    r = rng.random()
-                    if r < 0.45:
-                        chosen = [rng.choice(clocks)]
-                    elif r < 0.6:
-                        chosen = rng.sample(clocks, rng.randint(1, len(clocks)))
-                    elif r < 0.72 and resets:
-                        chosen = [rng.choice(resets)]
-                    elif r < 0.82 and resets:
-                        chosen = [rng.choice(resets), rng.choice(clocks)]
-                    elif r < 0.92:
-                        chosen = rng.sample(D.inputs + D.ctls, rng.randint(1, 3))
-                    else:
-                        chosen = rng.sample(free, rng.randint(1, min(4, len(free))))
-                    chosen = list({id(s): s for s in chosen}.values())
-                    before = [ctx.get(s) for s in sigs]
-                    newvals = []
-                    for s in chosen:
-                        if any(s is c for c in clocks) or any(s is c for c in resets):
-                            newvals.append(1 - ctx.get(s))
-                        elif any(s is c for c in D.ctls):
-                            newvals.append(rng.choice([0, 1, 1, 1, 2, 3]) % (1 << len(s)))
-                        else:
-                            newvals.append(gen_expr.rand_value(rng, s.shape()))
-                    packed, pos = 0, 0
-                    for s, v in zip(chosen, newvals):
-                        packed |= (v & ((1 << len(s)) - 1)) << pos
-                        pos += len(s)
-                    ctx.set(Cat(*chosen), packed)
-                    after = [ctx.get(s) for s in sigs]
-                    steps.append((before, [(sigidx[id(s)], v) for s, v in zip(chosen, newvals)], after))
-            sim.add_testbench(tb)
-            sim.run()
+            simulate(D, Simulator(D.top), sigs, sigidx, rng, n_events, steps)
         except Exception as e:
             import traceback
             case["error"] = (errkind(e), repr(e)[:200] + traceback.format_exc()[-500:])
-        case["head"] = head
-        case["names"] = [s.name for s in sigs]
-        case["steps"] = steps
-        case["req"] = head + "".join(
-            f" (step {ser_env(b)} (chg {' '.join(f'({i} {v})' for i, v in chg)}))" for b, chg, _a in steps) + ")"
+        finish_case(case, D, head, sigs, steps)
         out.append(case)
     return {"cases": out, "hist": hist}
 
 
+def reuse_job(args):
+    """one module tree (leaves with DSL programs and memories, any wrappers inside) elaborated ONCE into a Fragment
+    object; that object is then the submodule of 2-3 successive designs. Every design has its own top-level Module and
+    its own clock domains under the same names: fresh ClockDomain objects declared by the top level with a random edge
+    and reset style, or not declared at all (then `prepare()` creates them: rising edge, synchronous reset). Every design
+    is simulated from its initial state with hand-driven clocks and compared with the model for *that* design's
+    domains."""
+    seed, n_cores, n_events = args
+    from amaranth.hdl import Fragment
+    from amaranth.sim import Simulator
+    from .. import gen_design
+    rng = random.Random(seed)
+    out, hist = [], {}
+    for _ in range(n_cores):
+        case = {"seed": seed}
+        try:
+            D = gen_design.gen_design(rng, hist, rename_maps=True, memories=True, attach=False)
+            core = Fragment.get(D.core, None)
+        except Exception as e:
+            import traceback
+            hist["generator_error:" + errkind(e)] = hist.get("generator_error:" + errkind(e), 0) + 1
+            case["gen_error"] = traceback.format_exc()[-600:]
+            out.append(case)
+            continue
+        used = used_domains(core)
+        n_uses = rng.choice([2, 2, 3])
+        hist[f"reuse:designs_per_fragment:{n_uses}"] = hist.get(f"reuse:designs_per_fragment:{n_uses}", 0) + 1
+        prev = None
+        for use in range(n_uses):
+            case = {"seed": seed, "reuse": use + 1}
+            mode = rng.choice(["declared", "declared", "declared", "created", "mixed"])
+            # a domain nothing uses would not be created: it is always declared
+            declared = {n: gen_domain_cfg(rng) for n in D.domnames
+                        if mode == "declared" or n not in used or (mode == "mixed" and rng.random() < 0.5)}
+            case["domains"] = {n: declared.get(n, "created by prepare()") for n in D.domnames}
+            key = "reuse:use1" if use == 0 else "reuse:use%d:%s" % (use + 1, "same_styles_as_before" if declared == prev else "styles_differ")
+            hist[key] = hist.get(key, 0) + 1
+            for n in D.domnames:
+                k = "reuse:domain:" + ("/".join(declared[n]) if n in declared else "created")
+                hist[k] = hist.get(k, 0) + 1
+            prev = declared
+            steps, head, sigs = [], "", []
+            try:
+                cds = {n: make_domain(n, c) for n, c in declared.items()}
+                top = gen_design.attach_top(D, list(cds.values()), core)
+                sim = Simulator(top)
+                present = sim._design.fragment.domains      # the domains of the prepared design, created ones included
+                missing = sorted(n for n in D.domnames if n not in present)
+                if missing:
+                    case["error"] = ("NameError", f"domain(s) {missing} used by the design are not among the domains of the "
+                                     f"simulated design {sorted(present)}")
+                D.cds = [cds.get(n) or present.get(n) or make_domain(n, ("pos", "sync")) for n in D.domnames]
+                head, sigs, sigidx = gen_design.ser_design(D)
+                if "error" not in case:
+                    simulate(D, sim, sigs, sigidx, rng, n_events, steps)
+            except Exception as e:
+                import traceback
+                case["error"] = (errkind(e), repr(e)[:200] + traceback.format_exc()[-500:])
+            if head:
+                finish_case(case, D, head, sigs, steps)
+            else:
+                case["head"], case["names"], case["steps"] = "", [], []
+            out.append(case)
+    return {"cases": out, "hist": hist}
+
+
+def gen_domain_cfg(rng):
+    return (rng.choice(["pos", "neg"]), rng.choice(["none", "sync", "sync", "async"]))
+
+
+def make_domain(name, cfg):
+    from amaranth.hdl import ClockDomain
+    edge, kind = cfg
+    return ClockDomain(name, clk_edge=edge, reset_less=(kind == "none"), async_reset=(kind == "async"))
+
+
+def used_domains(frag):
+    """names of the clock domains the statements and memory ports below `frag` use"""
+    from amaranth.hdl._mem import MemoryInstance
+    out = set()
+
+    def walk(f):
+        out.update(d for d in f.statements if d != "comb")
+        if isinstance(f, MemoryInstance):
+            out.update(p._domain for p in f._read_ports + f._write_ports if p._domain != "comb")
+        for sub, _n, _l in f.subfragments:
+            walk(sub)
+    walk(frag)
+    return out
+
+
 def judge(chk, case, resp):
     base = {"job_seed": case["seed"], "names": case.get("names"), "design": case.get("head", "")[:6000]}
+    where = ""
+    if "reuse" in case:
+        base["stream"] = "reuse"
+        base["use_of_fragment"] = case["reuse"]
+        base["domains"] = case["domains"]
+        where = f"[design #{case['reuse']} holding one Fragment object; domains {case['domains']}] "
     if "gen_error" in case:
         chk.hist("generator_errors", 1)
         return
     if "error" in case:
-        chk.violation(f"simulating a legal multi-domain design raises {case['error'][0]}", dict(base, kind="raises", error=case["error"], classes=[]))
+        chk.violation(where + f"simulating a legal multi-domain design raises {case['error'][0]}: {case['error'][1][:160]}", dict(base, kind="raises", error=case["error"], classes=[]))
         return
     if not resp.startswith("c03 ;"):
         chk.not_shown("driver could not evaluate a design", dict(base, response=resp[:300]))
@@ -104,7 +215,7 @@ def judge(chk, case, resp):
         chk.hist("event_size", len(chg))
         if after != row["spec"]:
             bad = [i for i in range(len(after)) if after[i] != row["spec"][i]]
-            chk.violation(f"after the event {[(case['names'][i], v) for i, v in chg]} signal {case['names'][bad[0]]} is {after[bad[0]]}, "
+            chk.violation(where + f"after the event {[(case['names'][i], v) for i, v in chg]} signal {case['names'][bad[0]]} is {after[bad[0]]}, "
                           f"the property gives {row['spec'][bad[0]]}",
                           dict(base, kind="event", before=before, changes=chg, impl=after, spec=row["spec"], model=row["model"], classes=[]))
             return
@@ -129,20 +240,38 @@ def run(chk):
     quick = chk.tier == "quick"
     rng = chk.rng
     args = [(rng.getrandbits(48), 6, 30) for _ in range(64 if quick else 1500)]
+    reuse_args = [(rng.getrandbits(48), 3, 24) for _ in range(40 if quick else 600)]
+
+    def consume(job, stream):
+        for k, v in job["hist"].items():
+            chk.hist("constructs" if stream == "designs" else "constructs_reuse_stream", k, v)
+        live = [c for c in job["cases"] if "req" in c and "error" not in c]
+        resps = chk.driver.ask([c["req"] for c in live])
+        it = iter(resps)
+        for c in job["cases"]:
+            chk.hist("streams", stream if "gen_error" not in c else stream + ":generator_error")
+            judge(chk, c, next(it) if (c in live) else "")
     with ProcessPoolExecutor(max_workers=min(16, os.cpu_count() or 4)) as ex:
         for job in ex.map(design_job, args, chunksize=2):
-            for k, v in job["hist"].items():
-                chk.hist("constructs", k, v)
-            live = [c for c in job["cases"] if "req" in c and "error" not in c]
-            resps = chk.driver.ask([c["req"] for c in live])
-            it = iter(resps)
-            for c in job["cases"]:
-                judge(chk, c, next(it) if (c in live) else "")
+            consume(job, "designs")
+        for job in ex.map(reuse_job, reuse_args, chunksize=2):
+            consume(job, "reuse")
     chk.cov["rule"] = ("random designs: 1-3 clock domains (pos/neg edge; no/sync/async reset), module trees of depth <= 3 whose leaves hold "
-                       "DSL programs (comb and sync), reset-less signals, signals whose bits are split between two leaves/domains, any stack of "
-                       "ResetInserter/EnableInserter/DomainRenamer around any node; 30 events per design, each a set of simultaneous changes of "
-                       "clocks, resets, controls and inputs (ctx.set(Cat(...))); every signal compared after every event with the Lean model "
-                       "(run on amaranth's transformed statements and on its own model of the wrappers) and the Lean Spec. "
-                       "non-trivial = some register or comb output changes at some event")
-    chk.assumptions += ["memory ports under wrappers are exercised by C11's check (its walks include DomainRenamer/ResetInserter/EnableInserter)",
+                       "DSL programs (comb and sync), reset-less signals, signals whose bits are split between two leaves/domains, memories "
+                       "(lib.memory.Memory, depth 2/4, one write port and 1-2 read ports - synchronous non-transparent or asynchronous - each in "
+                       "any domain of the design; port addresses are inputs or FIFO-like pointer registers; rows observed through "
+                       "ctx.get(mem.data[i])), any stack of ResetInserter/EnableInserter/DomainRenamer around any node, DomainRenamer maps with "
+                       "one entry or several (swap, chain listed source-first / target-first, rotation, merge, identity entries: 60 % of the "
+                       "renamers of designs with >= 2 domains); 30 events per design, each a set of simultaneous changes of "
+                       "clocks, resets, controls and inputs (ctx.set(Cat(...))); every signal and memory row compared after every event with "
+                       "the Lean model (run on amaranth's transformed statements / memory ports and on its own model of the wrappers) and the "
+                       "Lean Spec (a memory = rows that no reset touches; a write port = a process of its domain replacing the addressed row "
+                       "when enabled; a synchronous read port = a process of its domain capturing the addressed row). "
+                       "reuse stream: the module tree is elaborated once (Fragment.get) and that Fragment object is the submodule of 2-3 "
+                       "successive designs, each with a fresh top-level Module and fresh ClockDomain objects under the same names (declared "
+                       "with random edge / reset style, or left to prepare() to create), each simulated from its initial state (24 events) and "
+                       "compared with the model for that design's domains. "
+                       "non-trivial = some register, row or comb output changes at some event")
+    chk.assumptions += ["memories in C03's designs have one write port and non-transparent read ports (granularity, transparency, several "
+                        "write ports, out-of-range addresses are C11's subject); designs with memories use one-bit inserter controls",
                         "derived clocks (a clock driven by logic) are not generated"]
